@@ -42,6 +42,8 @@ def jobs(tier, seed):
 
 def judge(rec, mrole, t, cfg, src=None):
     src = src or sc.program(mrole, t)
+    if not rec.begin_case(src):
+        return
     o, to = rt.guarded(lambda: observe.differential(src, cfg, sc.mkenv, globals_cmp=True, keep=True), 20)
     if to:
         rec.inconc("case-timeout")
